@@ -61,6 +61,22 @@ THEOREMS = [
     'C20.splineRespace_keeps_pinned', 'C20.stringStep_spline_fixed_pinned_critical',
     # climbing images named from the end (negative indices); the textbook form of the Runge-Kutta step is the same function
     'C20.pyIndex_nonneg', 'C20.pyIndex_neg_equiv', 'C20.pyIndex_out_of_range', 'C20.climbImages_neg_equiv', 'C20.rk4_textbook_form',
+    # round 5 (extender): source tie Generated/PathSource.lean — every generated definition equals the hand model
+    'C20.gen_resolveGradientfxn_eq_model', 'C20.gen_resolveIntegratorfxn_eq_model', 'C20.gen_sigInit_eq_model',
+    'C20.gen_sigCreatePath_eq_model', 'C20.gen_sigStep_eq_model', 'C20.gen_sigRelax_eq_model', 'C20.gen_initOrder_eq_model',
+    'C20.gen_defaults_eq_model', 'C20.gen_stepCarried_eq_model', 'C20.gen_interpCarried_eq_model',
+    'C20.gen_stepSegmentPins_eq_model', 'C20.gen_initPath_eq_model', 'C20.gen_createPath_eq_model',
+    'C20.gen_defaultTimestep_eq_model', 'C20.gen_defaultTolerance_eq_model', 'C20.genLoop_eq_relaxLoop',
+    'C20.gen_measure_eq_model', 'C20.gen_loopBody1_eq_model', 'C20.gen_loopBody2_eq_model', 'C20.gen_climbindex_eq_model',
+    'C20.gen_unitTangent_eq_model', 'C20.gen_relax_eq_model',
+    # the loops of relax over whole strings, relax as a whole (options, climbing images, end to end)
+    'C20.relaxLoop_zero', 'C20.relaxLoop_measures_length_le', 'C20.relaxLoop_invariant', 'C20.relaxLoop_eq_iterate',
+    'C20.relaxLoop_stopped_early', 'C20.relaxLoop_measures_before_last', 'C20.climbIndices_sorted_interior',
+    'C20.relax_default_options', 'C20.relax_zero_steps', 'C20.relax_steps_le', 'C20.relax_fields',
+    'C20.stringStep_spline_length', 'C20.stringStep_spline_keeps_critical_row', 'C20.relax_spline_critical_ends_fixed',
+    # construction: what create_path / __init__ accept, refuse (which exception first) and select
+    'C20.resolveGradientfxn_ok_iff', 'C20.resolveIntegratorfxn_ok_iff', 'C20.resolve_error_class', 'C20.createPath_ok_iff',
+    'C20.createPath_defaults', 'C20.createPath_style_first', 'C20.createPath_energy_first',
 ]
 PARTIAL = {
     'relaxation_converges_to_saddle': 'convergence of the iterated float/spline relaxation is not a '
@@ -90,7 +106,7 @@ PARTIAL = {
     'along the coordinate axes (exact error c3 s^2); for general smooth functions it is measured on the implementation '
     '(error ratio on halving the step) on arrays of every leading shape',
 }
-GENERATED = ['Integrators']
+GENERATED = ['Integrators', 'PathSource']
 
 CLS = '[Add V] [Sub V] [Neg V] [SMul K V] [Add K] [Sub K] [Mul K] [Div K] [Neg K] [NatCast K]'
 
@@ -211,6 +227,688 @@ def _self_grad(node, tr):
     return None
 
 
+# ----------------------------------------------------------------------------------------
+# Generated/PathSource.lean: BasePath / ISMPath / create_path as Lean definitions
+# ----------------------------------------------------------------------------------------
+import json as _json
+
+PCLS = ('[Add V] [Sub V] [Neg V] [SMul K V] [Add K] [Sub K] [Mul K] [Div K] [Neg K] [NatCast K] '
+        '[LT K] [DecidableLT K]')
+
+
+def _lstr(x):
+    return _json.dumps(x, ensure_ascii=False)
+
+
+def _sig(fn):
+    """(name, default as written) of every positional parameter; anything else in the signature is refused."""
+    a = fn.args
+    if a.vararg or a.kwarg or a.kwonlyargs or a.posonlyargs:
+        raise TranslationError(f'{fn.name}: signature has */**/keyword-only parameters')
+    names = [x.arg for x in a.args]
+    dflt = [''] * (len(names) - len(a.defaults)) + [ast.unparse(d) for d in a.defaults]
+    return list(zip(names, dflt))
+
+
+def _lean_sig(name, sig):
+    return f'def {name} : List (String × String) := [' + ', '.join(f'({_lstr(a)}, {_lstr(b)})' for a, b in sig) + ']\n'
+
+
+def _class_fn(src, cls, name, setter=False, prop=False):
+    tree = ast.parse(src)
+    out = []
+    for node in ast.walk(tree):
+        if isinstance(node, ast.ClassDef) and node.name == cls:
+            for f in node.body:
+                if isinstance(f, ast.FunctionDef) and f.name == name:
+                    decos = [ast.unparse(d) for d in f.decorator_list]
+                    if setter and decos != [f'{name}.setter']:
+                        continue
+                    if not setter and any(d.endswith('.setter') for d in decos):
+                        continue
+                    if prop and decos != ['property']:
+                        raise TranslationError(f'{cls}.{name} is not a plain property')
+                    out.append(f)
+    if len(out) != 1:
+        raise TranslationError(f'{cls}.{name}: found {len(out)} definitions')
+    return out[0]
+
+
+def _raise_class(st):
+    if isinstance(st, ast.Raise) and isinstance(st.exc, ast.Call) and isinstance(st.exc.func, ast.Name):
+        n = st.exc.func.id
+        if n == 'ValueError':
+            return '.value'
+        if n == 'TypeError':
+            return '.type'
+    raise TranslationError(f'expected raise ValueError/TypeError: {ast.unparse(st)[:60]}')
+
+
+def _setter(src, attr, targets, enum):
+    """`gradientfxn` / `integratorfxn` setter of BasePath -> the resolver as a Lean function (branch order of the source)."""
+    fn = _class_fn(src, 'BasePath', attr, setter=True)
+    if [a.arg for a in fn.args.args] != ['self', 'value']:
+        raise TranslationError(f'{attr} setter: signature')
+    body = strip_doc(fn.body)
+    if not (len(body) == 1 and isinstance(body[0], ast.If) and ast.unparse(body[0].test) == 'isinstance(value, str)'):
+        raise TranslationError(f'{attr} setter: not `if isinstance(value, str)`')
+    top = body[0]
+    # the chain on the name
+    lines = []
+    node = top.body
+    while True:
+        if not (len(node) == 1 and isinstance(node[0], ast.If)):
+            raise TranslationError(f'{attr} setter: name chain')
+        iff = node[0]
+        tests = iff.test.values if isinstance(iff.test, ast.BoolOp) and isinstance(iff.test.op, ast.Or) else [iff.test]
+        names = []
+        for t in tests:
+            if not (isinstance(t, ast.Compare) and ast.unparse(t.left) == 'value' and len(t.ops) == 1
+                    and isinstance(t.ops[0], ast.Eq) and isinstance(t.comparators[0], ast.Constant)
+                    and isinstance(t.comparators[0].value, str)):
+                raise TranslationError(f'{attr} setter: test {ast.unparse(t)}')
+            names.append(t.comparators[0].value)
+        if not (len(iff.body) == 1 and isinstance(iff.body[0], ast.Assign)
+                and ast.unparse(iff.body[0].targets[0]) == f'self.__{attr}'):
+            raise TranslationError(f'{attr} setter: branch body')
+        tgt = ast.unparse(iff.body[0].value)
+        if tgt not in targets:
+            raise TranslationError(f'{attr} setter: unknown function {tgt}')
+        cond = ' ∨ '.join(f'value = {_lstr(n)}' for n in names)
+        lines.append((cond, targets[tgt]))
+        if len(iff.orelse) == 1 and isinstance(iff.orelse[0], ast.If):
+            node = iff.orelse
+            continue
+        if len(iff.orelse) == 1 and isinstance(iff.orelse[0], ast.Raise):
+            unknown = _raise_class(iff.orelse[0])
+            break
+        raise TranslationError(f'{attr} setter: end of the name chain')
+    rest = top.orelse
+    if not (len(rest) == 1 and isinstance(rest[0], ast.If) and ast.unparse(rest[0].test) == 'callable(value)'
+            and len(rest[0].body) == 1 and ast.unparse(rest[0].body[0]) == f'self.__{attr} = value'
+            and len(rest[0].orelse) == 1):
+        raise TranslationError(f'{attr} setter: callable branch')
+    other = _raise_class(rest[0].orelse[0])
+    chain = ''
+    for cond, t in lines:
+        chain += f'if {cond} then .ok {t} else '
+    chain += f'.error {unknown}'
+    cap = attr[0].upper() + attr[1:]
+    return (f'def genResolve{cap} : FxnArg → Except PyErr {enum}\n'
+            f'  | .name value => {chain}\n'
+            f'  | .callable => .ok .user\n'
+            f'  | .other => .error {other}\n')
+
+
+def _default_fxnarg(text, what):
+    node = ast.parse(text, mode='eval').body
+    if isinstance(node, ast.Constant) and isinstance(node.value, str):
+        return f'.name {_lstr(node.value)}'
+    raise TranslationError(f'default of {what} is not a name: {text}')
+
+
+def _default_kwarg(text):
+    node = ast.parse(text, mode='eval').body
+    if isinstance(node, ast.Constant) and node.value is None:
+        return '.none'
+    if isinstance(node, ast.Dict) or ast.unparse(node) == 'dict()':
+        return '.dict'
+    raise TranslationError(f'default of gradientkwargs: {text}')
+
+
+def _init(src):
+    fn = _class_fn(src, 'BasePath', '__init__')
+    sig = _sig(fn)
+    d = dict(sig)
+    for k in ('gradientfxn', 'gradientkwargs', 'integratorfxn', 'energyfxn', 'coord'):
+        if k not in d:
+            raise TranslationError(f'__init__: no parameter {k}')
+    out = [_lean_sig('genSigInit', sig)]
+    out.append(f'def genDefaultGradientfxn : FxnArg := {_default_fxnarg(d["gradientfxn"], "gradientfxn")}\n')
+    out.append(f'def genDefaultIntegratorfxn : FxnArg := {_default_fxnarg(d["integratorfxn"], "integratorfxn")}\n')
+    out.append(f'def genDefaultGradientkwargs : KwArg := {_default_kwarg(d["gradientkwargs"])}\n')
+    order, lines = [], []
+    for st in strip_doc(fn.body):
+        u = ast.unparse(st)
+        if u == 'if isinstance(coord, BasePath):\n    coord = coord.coord':
+            continue
+        if u == 'self.coord = coord':
+            order.append('coord')
+        elif isinstance(st, ast.If) and ast.unparse(st.test) == 'callable(energyfxn)' and len(st.body) == 1 \
+                and ast.unparse(st.body[0]) == 'self.__energyfxn = energyfxn' and len(st.orelse) == 1:
+            order.append('energyfxn')
+            lines.append(f'if ¬ a.energyCallable then throw {_raise_class(st.orelse[0])}')
+        elif u == 'self.gradientfxn = gradientfxn':
+            order.append('gradientfxn')
+            lines.append('let g ← genResolveGradientfxn (a.gradientfxn.getD genDefaultGradientfxn)')
+        elif u == 'self.integratorfxn = integratorfxn':
+            order.append('integratorfxn')
+            lines.append('let i ← genResolveIntegratorfxn (a.integratorfxn.getD genDefaultIntegratorfxn)')
+        elif isinstance(st, ast.If) and ast.unparse(st.test) == 'gradientkwargs is None':
+            if not (len(st.body) == 1 and ast.unparse(st.body[0]) == 'self.__gradientkwargs = {}'
+                    and len(st.orelse) == 1 and isinstance(st.orelse[0], ast.If)
+                    and ast.unparse(st.orelse[0].test) == 'isinstance(gradientkwargs, dict)'
+                    and len(st.orelse[0].body) == 1
+                    and ast.unparse(st.orelse[0].body[0]) == 'self.__gradientkwargs = gradientkwargs'
+                    and len(st.orelse[0].orelse) == 1):
+                raise TranslationError('__init__: gradientkwargs handling')
+            order.append('gradientkwargs')
+            lines.append('let fresh ← (match a.gradientkwargs.getD genDefaultGradientkwargs with\n'
+                         '    | .none => (pure true : Except PyErr Bool)\n'
+                         '    | .dict => pure false\n'
+                         f'    | .other => throw {_raise_class(st.orelse[0].orelse[0])})')
+        else:
+            raise TranslationError(f'__init__: unsupported statement {u[:70]}')
+    if sorted(order) != sorted(['coord', 'energyfxn', 'gradientfxn', 'integratorfxn', 'gradientkwargs']):
+        raise TranslationError(f'__init__: fields stored {order}')
+    out.append('def genInitOrder : List String := [' + ', '.join(_lstr(o) for o in order) + ']\n')
+    out.append('def genInitPath (a : CtorArgs) : Except PyErr (GradChoice × IntegChoice × Bool) := do\n'
+               + '\n'.join('  ' + l for l in lines) + '\n  pure (g, i, fresh)\n')
+    return out, [n for n, _ in sig]
+
+
+def _carried(call, init_names, who):
+    """the fields a `ISMPath(newcoord, self.energyfxn, …)` call hands on from `self`."""
+    if not (isinstance(call, ast.Call) and ast.unparse(call.func) == 'ISMPath'):
+        raise TranslationError(f'{who}: the new path is not built by ISMPath(...)')
+    got = {}
+    params = init_names[1:]          # without self
+    for k, a in enumerate(call.args):
+        got[params[k]] = ast.unparse(a)
+    for kw in call.keywords:
+        if kw.arg is None:
+            raise TranslationError(f'{who}: ** in the constructor call')
+        got[kw.arg] = ast.unparse(kw.value)
+    return [n for n in params if got.get(n) == f'self.{n}'], got
+
+
+def _create_path(src, init_names):
+    fn = get_function(src, 'create_path')
+    sig = _sig(fn)
+    d = dict(sig)
+    out = [_lean_sig('genSigCreatePath', sig)]
+    st_default = ast.parse(d.get('style', 'None'), mode='eval').body
+    if not (isinstance(st_default, ast.Constant) and isinstance(st_default.value, str)):
+        raise TranslationError('create_path: default style')
+    out.append(f'def genDefaultStyle : String := {_lstr(st_default.value)}\n')
+    for k, gen in (('gradientfxn', 'genDefaultGradientfxn'), ('integratorfxn', 'genDefaultIntegratorfxn')):
+        out.append(f'def genCreate{k[0].upper()}{k[1:]}Default : FxnArg := {_default_fxnarg(d[k], k)}\n')
+    out.append(f'def genCreateGradientkwargsDefault : KwArg := {_default_kwarg(d["gradientkwargs"])}\n')
+    body = strip_doc(fn.body)
+    if not (len(body) == 1 and isinstance(body[0], ast.If)):
+        raise TranslationError('create_path: body')
+    iff = body[0]
+    tests = iff.test.values if isinstance(iff.test, ast.BoolOp) and isinstance(iff.test.op, ast.Or) else [iff.test]
+    styles = []
+    for t in tests:
+        if not (isinstance(t, ast.Compare) and ast.unparse(t.left) == 'style' and isinstance(t.ops[0], ast.Eq)
+                and isinstance(t.comparators[0], ast.Constant) and isinstance(t.comparators[0].value, str)):
+            raise TranslationError(f'create_path: test {ast.unparse(t)}')
+        styles.append(t.comparators[0].value)
+    if not (len(iff.body) == 1 and isinstance(iff.body[0], ast.Return) and len(iff.orelse) == 1):
+        raise TranslationError('create_path: branches')
+    call = iff.body[0].value
+    if not (isinstance(call, ast.Call) and ast.unparse(call.func) == 'ISMPath'):
+        raise TranslationError('create_path: does not build an ISMPath')
+    got = {}
+    params = init_names[1:]
+    for k, a in enumerate(call.args):
+        got[params[k]] = ast.unparse(a)
+    for kw in call.keywords:
+        got[kw.arg] = ast.unparse(kw.value)
+    for n in params:
+        if got.get(n) != n:
+            raise TranslationError(f'create_path: argument {n} is not handed on to ISMPath ({got.get(n)})')
+    cond = ' ∨ '.join(f'style = {_lstr(x)}' for x in styles)
+    out.append('def genCreatePath (a : CtorArgs) : Except PyErr (GradChoice × IntegChoice × Bool) :=\n'
+               '  let style := a.style.getD genDefaultStyle\n'
+               f'  if {cond} then genInitPath a else .error {_raise_class(iff.orelse[0])}\n')
+    return out
+
+
+def _default_expr(src, name):
+    """`default_timestep` / `default_tolerance` -> a Lean expression in the number of images `n`."""
+    fn = _class_fn(src, 'ISMPath', name, prop=True)
+    body = strip_doc(fn.body)
+    if not (len(body) == 1 and isinstance(body[0], ast.Return)):
+        raise TranslationError(f'{name}: body is not one return')
+
+    def tr(node):
+        if isinstance(node, ast.Constant) and isinstance(node.value, (int, float)) and not isinstance(node.value, bool):
+            return lit(Fraction(ast.unparse(node)))
+        if isinstance(node, ast.BinOp) and isinstance(node.op, ast.Mult):
+            return f'({tr(node.left)} * {tr(node.right)})'
+        if isinstance(node, ast.BinOp) and isinstance(node.op, ast.Pow) and ast.unparse(node.left) == 'len(self.coord)':
+            e = node.right
+            if isinstance(e, ast.UnaryOp) and isinstance(e.op, ast.USub) and isinstance(e.operand, ast.Constant) \
+                    and isinstance(e.operand.value, int) and 1 <= e.operand.value <= 8:
+                prod = ' * '.join(['((n : Nat) : K)'] * e.operand.value)
+                return f'({lit(Fraction(1))} / ({prod}))'
+            raise TranslationError(f'{name}: power {ast.unparse(node)}')
+        if isinstance(node, ast.Call) and ast.unparse(node.func) in ('np.min', 'np.max') and len(node.args) == 1 \
+                and not node.keywords and isinstance(node.args[0], ast.List) and len(node.args[0].elts) == 2:
+            a, b = (tr(x) for x in node.args[0].elts)
+            if ast.unparse(node.func) == 'np.min':
+                return f'(if {b} < {a} then {b} else {a})'
+            return f'(if {a} < {b} then {b} else {a})'
+        raise TranslationError(f'{name}: unsupported expression {ast.unparse(node)}')
+
+    cap = ''.join(w.capitalize() for w in name.split('_'))
+    return (f'def gen{cap} {{K : Type}} [Mul K] [Div K] [NatCast K] [LT K] [DecidableLT K] (n : Nat) : K :=\n'
+            f'  {tr(body[0].value)}\n')
+
+
+class _ListTr:
+    """array expressions of ISMPath over lists of rows / numbers / flags."""
+
+    def __init__(self, env):
+        self.env = dict(env)
+
+    def _slice(self, x, sl):
+        lo, hi = sl.lower, sl.upper
+        if sl.step is not None:
+            raise TranslationError('slice with a step')
+        out = x
+        if hi is not None:
+            if isinstance(hi, ast.UnaryOp) and isinstance(hi.op, ast.USub) and isinstance(hi.operand, ast.Constant) \
+                    and isinstance(hi.operand.value, int) and 1 <= hi.operand.value <= 3:
+                for _ in range(hi.operand.value):
+                    out = f'(List.dropLast {out})'
+            elif isinstance(hi, ast.Name) and self.env.get(hi.id) == 'N':
+                if lo is not None:
+                    raise TranslationError('slice [a:name]')
+                return f'(List.take {hi.id} {out})'
+            else:
+                raise TranslationError(f'slice end {ast.unparse(hi)}')
+        if lo is not None:
+            if isinstance(lo, ast.Constant) and isinstance(lo.value, int) and 0 <= lo.value <= 3:
+                if lo.value:
+                    out = f'(List.drop {lo.value} {out})'
+            else:
+                raise TranslationError(f'slice start {ast.unparse(lo)}')
+        return out
+
+    def tr(self, node):
+        u = ast.unparse(node)
+        if isinstance(node, ast.Name):
+            if node.id not in self.env:
+                raise TranslationError(f'unknown name {node.id}')
+            return node.id, self.env[node.id]
+        if isinstance(node, ast.Attribute) and node.attr == 'coord' and isinstance(node.value, ast.Name) \
+                and self.env.get(node.value.id) == 'P':
+            return f'{node.value.id}.coord', 'LV'
+        if isinstance(node, ast.Subscript) and isinstance(node.slice, ast.Slice):
+            x, t = self.tr(node.value)
+            if t not in ('LV', 'LK', 'LB', 'LN'):
+                raise TranslationError(f'slice of {t}: {u}')
+            return self._slice(x, node.slice), t
+        if isinstance(node, ast.Attribute) and node.attr == 'T' and isinstance(node.value, ast.BinOp) \
+                and isinstance(node.value.op, ast.Div):
+            num, den = node.value.left, node.value.right
+            if isinstance(num, ast.Attribute) and num.attr == 'T':
+                x, t = self.tr(num.value)
+                if t == 'LV' and ast.unparse(den) in (f'np.linalg.norm({ast.unparse(num.value)}, axis=-1)',
+                                                      f'np.linalg.norm({ast.unparse(num.value)}, axis=1)'):
+                    return f'(Np.rowUnit dot sqrt {x})', 'LV'
+            raise TranslationError(f'unsupported normalisation {u}')
+        if isinstance(node, ast.Call) and ast.unparse(node.func) == 'np.linalg.norm':
+            if len(node.args) == 1 and len(node.keywords) == 1 and node.keywords[0].arg == 'axis' \
+                    and ast.unparse(node.keywords[0].value) in ('-1', '1'):
+                x, t = self.tr(node.args[0])
+                if t == 'LV':
+                    return f'(Np.rowNorms dot sqrt {x})', 'LK'
+            raise TranslationError(f'unsupported norm {u}')
+        if isinstance(node, ast.Call) and isinstance(node.func, ast.Attribute) and node.func.attr == 'max' \
+                and not node.args and not node.keywords:
+            x, t = self.tr(node.func.value)
+            if t == 'LK':
+                return f'(Np.maxOf {x})', 'K'
+            raise TranslationError(f'max of {t}')
+        if isinstance(node, ast.BinOp) and isinstance(node.op, (ast.Add, ast.Sub)):
+            a, ta = self.tr(node.left)
+            b, tb = self.tr(node.right)
+            op = '+' if isinstance(node.op, ast.Add) else '-'
+            if ta == tb == 'LV':
+                return f'(Np.ew (fun a b => a {op} b) {a} {b})', 'LV'
+            raise TranslationError(f'{u}: operands {ta}, {tb}')
+        if isinstance(node, ast.BinOp) and isinstance(node.op, ast.Div):
+            a, ta = self.tr(node.left)
+            b, tb = self.tr(node.right)
+            if ta == tb == 'K':
+                return f'({a} / {b})', 'K'
+            raise TranslationError(f'{u}: operands {ta}, {tb}')
+        if isinstance(node, ast.BinOp) and isinstance(node.op, (ast.BitAnd, ast.BitOr)):
+            a, ta = self.tr(node.left)
+            b, tb = self.tr(node.right)
+            if ta == tb == 'LB':
+                f = 'and' if isinstance(node.op, ast.BitAnd) else 'or'
+                return f'(Np.ew {f} {a} {b})', 'LB'
+            raise TranslationError(f'{u}: operands {ta}, {tb}')
+        if isinstance(node, ast.Compare) and len(node.ops) == 1:
+            a, ta = self.tr(node.left)
+            b, tb = self.tr(node.comparators[0])
+            rel = {ast.Gt: 'decide (b < a)', ast.GtE: 'decide (¬ a < b)', ast.Lt: 'decide (a < b)',
+                   ast.LtE: 'decide (¬ b < a)'}.get(type(node.ops[0]))
+            if rel is None:
+                raise TranslationError(f'comparison {u}')
+            if ta == tb == 'LK':
+                return f'(Np.ew (fun a b => {rel}) {a} {b})', 'LB'
+            raise TranslationError(f'{u}: operands {ta}, {tb}')
+        if isinstance(node, ast.Call) and ast.unparse(node.func) == 'np.hstack' and len(node.args) == 1 \
+                and isinstance(node.args[0], ast.List):
+            parts = []
+            for e in node.args[0].elts:
+                if isinstance(e, ast.Constant) and isinstance(e.value, bool):
+                    parts.append('[true]' if e.value else '[false]')
+                else:
+                    x, t = self.tr(e)
+                    if t != 'LB':
+                        raise TranslationError(f'hstack of {t}')
+                    parts.append(x)
+            return '(' + ' ++ '.join(parts) + ')', 'LB'
+        raise TranslationError(f'unsupported array expression: {u[:80]}')
+
+
+def _unittangent(src):
+    fn = _class_fn(src, 'ISMPath', 'unittangent', prop=True)
+    tr = _ListTr({'self': 'P'})
+    lets = []
+    parts = {}
+    filled = None
+    final = None
+    for st in strip_doc(fn.body):
+        u = ast.unparse(st)
+        if final is not None:
+            raise TranslationError('unittangent: statement after return')
+        if isinstance(st, ast.Return):
+            x, t = tr.tr(st.value)
+            if t != 'LV':
+                raise TranslationError('unittangent: result')
+            final = x
+        elif u == 'τ = np.empty_like(self.coord)':
+            filled = 'τ'
+        elif isinstance(st, ast.Assign) and len(st.targets) == 1 and isinstance(st.targets[0], ast.Name):
+            name = st.targets[0].id
+            if filled == name and name not in tr.env:
+                if sorted(parts) != ['first', 'last', 'mid']:
+                    raise TranslationError(f'unittangent: τ used before rows 0, 1:-1, -1 are set ({sorted(parts)})')
+                lets.append(f'let {name} := {parts["first"]} ++ {parts["mid"]} ++ {parts["last"]}')
+                tr.env[name] = 'LV'
+            x, t = tr.tr(st.value)
+            lets.append(f'let {name} := {x}')
+            tr.env[name] = t
+        elif isinstance(st, ast.Assign) and isinstance(st.targets[0], ast.Subscript) \
+                and ast.unparse(st.targets[0].value) == filled:
+            key = ast.unparse(st.targets[0].slice)
+            v = st.value
+            if key in ('0', '-1'):
+                if not (isinstance(v, ast.Subscript) and isinstance(v.value, ast.Name) and tr.env.get(v.value.id) == 'LV'
+                        and ast.unparse(v.slice) in ('0', '-1')):
+                    raise TranslationError(f'unittangent: {u}')
+                pick = 'List.head?' if ast.unparse(v.slice) == '0' else 'List.getLast?'
+                parts['first' if key == '0' else 'last'] = f'({pick} {v.value.id}).toList'
+            elif key == '1:-1':
+                x, t = tr.tr(v)
+                if t != 'LV':
+                    raise TranslationError(f'unittangent: {u}')
+                parts['mid'] = x
+            else:
+                raise TranslationError(f'unittangent: rows {key} assigned')
+        else:
+            raise TranslationError(f'unittangent: unsupported statement {u[:70]}')
+    if final is None:
+        raise TranslationError('unittangent: no return')
+    body = '\n'.join('  ' + l for l in lets + [final])
+    return ('/-- `ISMPath.unittangent` for a string of at least two images (`self` = the path). -/\n'
+            f'def genUnitTangent {{V K : Type}} {PCLS}\n'
+            f'    (dot : V → V → K) (sqrt : K → K) (self : Path V K) : List V :=\n{body}\n')
+
+
+def _only_prints(stmts):
+    for st in stmts:
+        if not (isinstance(st, ast.Expr) and isinstance(st.value, ast.Call) and ast.unparse(st.value.func) == 'print'):
+            return False
+    return True
+
+
+def _step_call(node, env, sig_step):
+    """`<path>.step(timestep=…, climbindex=…)` -> the model's whole step."""
+    if not (isinstance(node, ast.Call) and isinstance(node.func, ast.Attribute) and node.func.attr == 'step'
+            and isinstance(node.func.value, ast.Name) and env.get(node.func.value.id) == 'P'):
+        raise TranslationError(f'not a step call: {ast.unparse(node)}')
+    params = [n for n, _ in sig_step][1:]
+    got = {}
+    for k, a in enumerate(node.args):
+        got[params[k]] = ast.unparse(a)
+    for kw in node.keywords:
+        if kw.arg is None:
+            raise TranslationError('** in a step call')
+        got[kw.arg] = ast.unparse(kw.value)
+    if set(got) - {'timestep', 'climbindex'} or 'timestep' not in got:
+        raise TranslationError(f'step call arguments {got}')
+    if env.get(got['timestep']) != 'K':
+        raise TranslationError(f'step call: timestep = {got["timestep"]}')
+    climb = '[]'
+    if 'climbindex' in got:
+        if env.get(got['climbindex']) != 'LN':
+            raise TranslationError(f'step call: climbindex = {got["climbindex"]}')
+        climb = got['climbindex']
+    return f'(Path.stringStep {node.func.value.id} dot sqrt respace {got["timestep"]} {climb})'
+
+
+def _relax(src, sig_step):
+    fn = _class_fn(src, 'ISMPath', 'relax')
+    sig = _sig(fn)
+    if [n for n, _ in sig] != ['self', 'relaxsteps', 'climbsteps', 'timestep', 'tolerance', 'climbpoints', 'verbose']:
+        # the order is pinned by gen_sigRelax_eq_model; the names are needed to type the body
+        if sorted(n for n, _ in sig) != sorted(['self', 'relaxsteps', 'climbsteps', 'timestep', 'tolerance', 'climbpoints',
+                                                'verbose']):
+            raise TranslationError(f'relax: parameters {sig}')
+    env = {'self': 'P', 'relaxsteps': 'N', 'climbsteps': 'N', 'climbpoints': 'N', 'timestep': 'OK', 'tolerance': 'OK'}
+    lets, defs = [], []
+    nloop = 0
+    measures = []
+    final = None
+    for st in strip_doc(fn.body):
+        u = ast.unparse(st)
+        if final is not None:
+            raise TranslationError('relax: statement after return')
+        if isinstance(st, ast.If) and ast.unparse(st.test) in ('timestep is None', 'tolerance is None'):
+            name = ast.unparse(st.test).split()[0]
+            want = f'{name} = self.default_{name}'
+            if not (len(st.body) == 1 and ast.unparse(st.body[0]) == want and not st.orelse and env[name] == 'OK'):
+                raise TranslationError(f'relax: default of {name}')
+            cap = name.capitalize()
+            lets.append(f'let {name} := {name}.getD (genDefault{cap} self.coord.length)')
+            env[name] = 'K'
+        elif isinstance(st, ast.If) and 'verbose' in ast.unparse(st.test):
+            if not (_only_prints(st.body) and not st.orelse):
+                raise TranslationError(f'relax: a verbose block does more than print')
+        elif u in ('s = time.time()', 'e = time.time()'):
+            continue
+        elif u == 'currentpath = self':
+            lets.append('let currentpath := self')
+            env['currentpath'] = 'P'
+        elif isinstance(st, ast.For):
+            if not (isinstance(st.target, ast.Name) and isinstance(st.iter, ast.Call) and ast.unparse(st.iter.func) == 'range'
+                    and len(st.iter.args) == 1 and isinstance(st.iter.args[0], ast.Name)
+                    and env.get(st.iter.args[0].id) == 'N' and not st.orelse):
+                raise TranslationError(f'relax: loop header {ast.unparse(st.iter)}')
+            if env.get('timestep') != 'K' or env.get('tolerance') != 'K' or env.get('currentpath') != 'P':
+                raise TranslationError('relax: loop before the defaults are set')
+            nloop += 1
+            count = st.iter.args[0].id
+            benv = dict(env)
+            blets = []
+            tr = _ListTr(benv)
+            done = None
+            for b in st.body:
+                bu = ast.unparse(b)
+                if done is not None:
+                    raise TranslationError('relax: statement after the convergence test in a loop')
+                if isinstance(b, ast.Assign) and len(b.targets) == 1 and isinstance(b.targets[0], ast.Name):
+                    name = b.targets[0].id
+                    if isinstance(b.value, ast.Call) and isinstance(b.value.func, ast.Attribute) and b.value.func.attr == 'step':
+                        blets.append(f'let {name} := {_step_call(b.value, benv, sig_step)}')
+                        benv[name] = 'P'
+                    elif isinstance(b.value, ast.Name) and benv.get(b.value.id) == 'P':
+                        blets.append(f'let {name} := {b.value.id}')
+                        benv[name] = 'P'
+                    else:
+                        tr.env = benv
+                        x, t = tr.tr(b.value)
+                        if t != 'K':
+                            raise TranslationError(f'relax: {bu[:60]}')
+                        blets.append(f'let {name} := {x}')
+                        benv[name] = 'K'
+                elif isinstance(b, ast.If) and len(b.body) == 1 and isinstance(b.body[0], ast.Break) and not b.orelse:
+                    t = b.test
+                    if not (isinstance(t, ast.Compare) and len(t.ops) == 1 and isinstance(t.left, ast.Name)
+                            and isinstance(t.comparators[0], ast.Name) and benv.get(t.left.id) == 'K'
+                            and benv.get(t.comparators[0].id) == 'K'):
+                        raise TranslationError(f'relax: convergence test {ast.unparse(t)}')
+                    a_, b_ = t.left.id, t.comparators[0].id
+                    rel = {ast.Lt: f'decide ({a_} < {b_})', ast.LtE: f'decide (¬ {b_} < {a_})',
+                           ast.Gt: f'decide ({b_} < {a_})', ast.GtE: f'decide (¬ {a_} < {b_})'}.get(type(t.ops[0]))
+                    if rel is None:
+                        raise TranslationError(f'relax: convergence test {ast.unparse(t)}')
+                    done = (a_, rel)
+                else:
+                    raise TranslationError(f'relax: unsupported statement in a loop: {bu[:70]}')
+            if done is None or benv.get('currentpath') != 'P':
+                raise TranslationError('relax: loop without convergence test')
+            climbarg = ' (climbindex : List Nat)' if env.get('climbindex') == 'LN' else ''
+            climbuse = ' climbindex' if climbarg else ''
+            defs.append(f'/-- body of loop {nloop} of `relax` (`for i in range({count})`): the string after the pass, the measure, '
+                        f'whether the loop breaks. -/\n'
+                        f'def genLoopBody{nloop} {{V K : Type}} {PCLS}\n'
+                        f'    (dot : V → V → K) (sqrt : K → K) (respace : List Nat → List V → List V) (timestep tolerance : K)'
+                        f'{climbarg}\n    (currentpath : Path V K) : Path V K × K × Bool :=\n'
+                        + '\n'.join('  ' + l for l in blets) + f'\n  (currentpath, {done[0]}, {done[1]})\n')
+            lets.append(f'let r{nloop} := genLoop (genLoopBody{nloop} dot sqrt respace timestep tolerance{climbuse}) {count} currentpath')
+            lets.append(f'let currentpath := r{nloop}.1')
+            measures.append(f'r{nloop}.2')
+        elif u == 'energy = currentpath.energy()' and env.get('currentpath') == 'P':
+            lets.append('let energy := currentpath.energy')
+            env['energy'] = 'LK'
+        elif isinstance(st, ast.Assign) and u.startswith('maxmap = '):
+            x, t = _ListTr(env).tr(st.value)
+            if t != 'LB':
+                raise TranslationError('relax: maxmap')
+            lets.append(f'let maxmap := {x}')
+            env['maxmap'] = 'LB'
+        elif u == 'climbindex = np.arange(len(maxmap))[maxmap]' and env.get('maxmap') == 'LB':
+            lets.append('let climbindex := Np.whereTrue maxmap')
+            env['climbindex'] = 'LN'
+        elif isinstance(st, ast.If) and u.startswith('if maxmap.sum()'):
+            t = st.test
+            if not (ast.unparse(t) == 'maxmap.sum() > climbpoints' and len(st.body) == 1 and not st.orelse
+                    and isinstance(st.body[0], ast.Assign) and ast.unparse(st.body[0].targets[0]) == 'climbindex'
+                    and env.get('climbindex') == 'LN'):
+                raise TranslationError(f'relax: {u[:70]}')
+            x, tt = _ListTr(env).tr(st.body[0].value)
+            if tt != 'LN':
+                raise TranslationError(f'relax: {u[:70]}')
+            lets.append(f'let climbindex := if climbpoints < Np.countTrue maxmap then {x} else climbindex')
+        elif isinstance(st, ast.Return) and isinstance(st.value, ast.Name) and env.get(st.value.id) == 'P':
+            final = st.value.id
+        else:
+            raise TranslationError(f'relax: unsupported statement {u[:70]}')
+    if final is None or nloop != 2 or env.get('climbindex') != 'LN':
+        raise TranslationError('relax: not two loops with a choice of climbing images in between')
+    out = [_lean_sig('genSigRelax', sig)]
+    out += defs
+    out.append('/-- `ISMPath.relax` (printing left out): the string returned, the measures of the steps of the first loop, the\n'
+               '    climbing images, the measures of the second loop. -/\n'
+               f'def genRelax {{V K : Type}} {PCLS}\n'
+               '    (self : Path V K) (dot : V → V → K) (sqrt : K → K) (respace : List Nat → List V → List V)\n'
+               '    (relaxsteps climbsteps : Nat) (timestep tolerance : Option K) (climbpoints : Nat) : RelaxResult V K :=\n'
+               + '\n'.join('  ' + l for l in lets)
+               + f'\n  ⟨{final}, {measures[0]}, climbindex, {measures[1]}⟩\n')
+    return out
+
+
+_GENLOOP = """/-- `for i in range(n): <body>; if …: break` with the body a function of the string:
+    the string reached and the measures of the passes made. -/
+def genLoop {P K : Type} (body : P → P × K × Bool) : Nat → P → P × List K
+  | 0, p => (p, [])
+  | n + 1, p =>
+    let r := body p
+    if r.2.2 then (r.1, [r.2.1]) else
+      let t := genLoop body n r.1
+      (t.1, r.2.1 :: t.2)
+"""
+
+
+def _step_pins(src, init_names):
+    fn = _class_fn(src, 'ISMPath', 'step')
+    sig = _sig(fn)
+    out = [_lean_sig('genSigStep', sig)]
+    body = strip_doc(fn.body)
+    pins = []
+    carried = None
+    seen_default = False
+    icoord_calls = []
+    for st in body:
+        u = ast.unparse(st)
+        if isinstance(st, ast.FunctionDef):
+            continue          # rate / climbrate: Generated/Integrators.lean
+        if u == 'if timestep is None:\n    timestep = self.default_timestep':
+            seen_default = True
+        elif u == 'icoord = self.integratorfxn(rate, self.coord, timestep)':
+            icoord_calls.append('rate')
+        elif isinstance(st, ast.If) and ast.unparse(st.test) == 'climbindex is not None':
+            want = ['climbindex = aslist(climbindex)', 'τ = self.unittangent',
+                    'icoord[climbindex] = self.integratorfxn(climbrate, self.coord[climbindex], timestep, τ=τ[climbindex])']
+            if [ast.unparse(x) for x in st.body] != want or [ast.unparse(x) for x in st.orelse] != ['climbindex = []']:
+                raise TranslationError('step: the climbing branch is not the pinned one')
+            icoord_calls.append('climbrate')
+        elif u.startswith('intpath = '):
+            carried, got = _carried(st.value, init_names, 'step')
+            if got.get('coord') != 'icoord':
+                raise TranslationError('step: intpath is not built from icoord')
+        elif isinstance(st, ast.For):
+            pins.append(f'for {ast.unparse(st.target)} in {ast.unparse(st.iter)}:')
+            pins += [ast.unparse(x) for x in st.body]
+        else:
+            pins.append(u)
+    if not seen_default or icoord_calls != ['rate', 'climbrate'] or carried is None:
+        raise TranslationError('step: default time step / the two integrator calls / intpath not found')
+    out.append('def genStepCarried : List String := [' + ', '.join(_lstr(x) for x in carried) + ']\n')
+    out.append('def genStepSegmentPins : List String :=\n  [' + ',\n   '.join(_lstr(x) for x in pins) + ']\n')
+    # interpolate_path
+    fn = _class_fn(src, 'ISMPath', 'interpolate_path')
+    rets = [x for x in strip_doc(fn.body) if isinstance(x, ast.Return)]
+    if len(rets) != 1:
+        raise TranslationError('interpolate_path: returns')
+    carried2, got2 = _carried(rets[0].value, init_names, 'interpolate_path')
+    out.append('def genInterpCarried : List String := [' + ', '.join(_lstr(x) for x in carried2) + ']\n')
+    return out, sig
+
+
+def _path_source():
+    base = cm.source('atomman/mep/BasePath.py')
+    ism = cm.source('atomman/mep/ISMPath.py')
+    init = cm.source('atomman/mep/__init__.py')
+    parts = ['/- GENERATED by harness/props/c20.py from atomman/mep/{BasePath,ISMPath,__init__}.py — do not edit. -/',
+             'import Atomman.C20', 'namespace Atomman.C20.Src', 'open Atomman.C20', '']
+    parts.append(_setter(base, 'gradientfxn', {'gradient.central_difference': '.centralDifference'}, 'GradChoice'))
+    parts.append(_setter(base, 'integratorfxn', {'integrator.rungekutta': '.rungekutta', 'integrator.euler': '.euler'},
+                         'IntegChoice'))
+    ini, init_names = _init(base)
+    parts += ini
+    parts += _create_path(init, init_names)
+    parts.append(_default_expr(ism, 'default_timestep'))
+    parts.append(_default_expr(ism, 'default_tolerance'))
+    parts.append(_unittangent(ism))
+    pins, sig_step = _step_pins(ism, init_names)
+    parts += pins
+    parts.append(_GENLOOP)
+    parts += _relax(ism, sig_step)
+    parts.append('end Atomman.C20.Src\n')
+    return '\n'.join(parts)
+
+
 def translate():
     parts = ['/- GENERATED by harness/props/c20.py from atomman/mep — do not edit. -/',
              'namespace Atomman.Gen', '']
@@ -219,7 +917,7 @@ def translate():
     parts.append(_central_difference(cm.source('atomman/mep/gradient/central_difference.py')))
     parts.append(_rates(cm.source('atomman/mep/ISMPath.py')))
     parts.append('end Atomman.Gen\n')
-    return {'Integrators': '\n'.join(parts)}
+    return {'Integrators': '\n'.join(parts), 'PathSource': _path_source()}
 
 
 # ----------------------------------------------------------------------------------------
@@ -2266,6 +2964,123 @@ class _Selection:
         return None
 
 
+# ----------------------------------------------------------------------------------------
+# construction: every combination of good / bad arguments (which exception, what is selected)
+# ----------------------------------------------------------------------------------------
+_CT_ENERGY = ['callable', 'callable', 'callable', 'number', 'None', 'str']
+_CT_STYLE = ['-', '-', 'ISM', 'improved_string_method', 'ism', 'NEB', '', 'ISM ', 'None']
+_CT_GFX = ['-', '-', 'cdiff', 'central_difference', 'callable', 'CDIFF', 'cd', 'central-difference', '', 'int', 'None', 'list']
+_CT_KW = ['-', '-', 'None', 'empty', 'dict', 'list', 'zero', 'tuple', 'str']
+_CT_IFX = ['-', '-', 'rk', 'rungekutta', 'euler', 'callable', 'RK', 'Euler', 'verlet', 'rk4', '', 'int', 'None']
+_CT_VIA = ['create_path', 'create_path', 'create_path:positional', 'ISMPath', 'ISMPath:positional', 'BasePath']
+
+
+def _gen_ctor(rng):
+    return {'energy': rng.choice(_CT_ENERGY), 'style': rng.choice(_CT_STYLE), 'gfx': rng.choice(_CT_GFX),
+            'kw': rng.choice(_CT_KW), 'ifx': rng.choice(_CT_IFX), 'via': rng.choice(_CT_VIA)}
+
+
+def _ctor_values(case):
+    np = _np()
+    def energy(c):
+        return (np.asarray(c) ** 2).sum(-1)
+    def gfx(f, c, **kw):
+        return 2 * np.asarray(c, dtype=float)
+    def ifx(r, c, h, **kw):
+        return c + h * r(c, **kw)
+    e = {'callable': energy, 'number': 3.0, 'None': None, 'str': 'energy'}[case['energy']]
+    g = {'callable': gfx, 'int': 5, 'None': None, 'list': [1]}.get(case['gfx'], case['gfx'])
+    i = {'callable': ifx, 'int': 3, 'None': None}.get(case['ifx'], case['ifx'])
+    k = {'None': None, 'empty': {}, 'dict': {'shift': 1e-4}, 'list': [], 'zero': 0, 'tuple': (), 'str': ''}.get(case['kw'])
+    st = None if case['style'] == 'None' else case['style']
+    return e, st, g, k, i, gfx, ifx
+
+
+def _ctor_run(case):
+    """the implementation: ('ok', gradient function selected, integrator selected, own settings dictionary?) | ('err', class)"""
+    np = _np()
+    import atomman as am
+    from atomman.mep import ISMPath, BasePath, create_path
+    from atomman.mep.gradient import central_difference
+    from atomman.mep.integrator import euler, rungekutta
+    e, st, g, k, i, gfx, ifx = _ctor_values(case)
+    coord = np.array([[0.0, 1.0], [1.0, 0.5], [2.0, 0.0]])
+    via = case['via']
+    opts = []
+    if via.startswith('create_path') and case['style'] != '-':
+        opts.append(('style', st))
+    if case['gfx'] != '-':
+        opts.append(('gradientfxn', g))
+    if case['kw'] != '-':
+        opts.append(('gradientkwargs', k))
+    if case['ifx'] != '-':
+        opts.append(('integratorfxn', i))
+    fn = {'create_path': create_path, 'ISMPath': ISMPath, 'BasePath': BasePath}[via.split(':')[0]]
+    try:
+        if via.endswith(':positional'):
+            # positional in the documented order, defaults filled in up to the last argument given
+            order = (['style'] if via.startswith('create_path') else []) + ['gradientfxn', 'gradientkwargs', 'integratorfxn']
+            dflt = {'style': 'ISM', 'gradientfxn': 'cdiff', 'gradientkwargs': None, 'integratorfxn': 'rk'}
+            given = dict(opts)
+            last = max([order.index(n) for n in given], default=-1)
+            p = fn(coord, e, *[given.get(n, dflt[n]) for n in order[:last + 1]])
+        else:
+            p = fn(coord, e, **dict(opts))
+    except Exception as ex:  # noqa
+        return ('err', type(ex).__name__, str(ex)[:80])
+    gsel = 'central_difference' if p.gradientfxn is central_difference else ('user' if p.gradientfxn is gfx else '?')
+    isel = 'rungekutta' if p.integratorfxn is rungekutta else 'euler' if p.integratorfxn is euler else \
+        ('user' if p.integratorfxn is ifx else '?')
+    own = not (isinstance(k, dict) and case['kw'] != '-' and p.gradientkwargs is k)
+    if own and p.gradientkwargs != {}:
+        return ('ok', gsel, isel, 'own settings not empty: %r' % (p.gradientkwargs,))
+    return ('ok', gsel, isel, 1 if own else 0)
+
+
+def _ctor_line(case):
+    def fx(v):
+        return '-' if v == '-' else 'c' if v == 'callable' else 'o' if v in ('int', 'None', 'list') else 'n:' + v.replace(' ', '_')
+    kw = {'-': '-', 'None': 'none', 'empty': 'dict', 'dict': 'dict'}.get(case['kw'], 'other')
+    style = '-' if (case['style'] == '-' or not case['via'].startswith('create_path')) else 's:' + case['style'].replace(' ', '_')
+    return f'ctor {1 if case["energy"] == "callable" else 0} {style} {fx(case["gfx"])} {kw} {fx(case["ifx"])}'
+
+
+def _ctor_oracle(case):
+    """the documented behaviour, independent of Lean: style first, then energyfxn, gradientfxn, integratorfxn, settings."""
+    if case['via'].startswith('create_path') and case['style'] not in ('-', 'ISM', 'improved_string_method'):
+        return ('err', 'ValueError')
+    if case['energy'] != 'callable':
+        return ('err', 'TypeError')
+    sel = []
+    for v, names in ((case['gfx'], {'-': 'central_difference', 'cdiff': 'central_difference',
+                                   'central_difference': 'central_difference'}),
+                     (case['ifx'], {'-': 'rungekutta', 'rk': 'rungekutta', 'rungekutta': 'rungekutta', 'euler': 'euler'})):
+        if v == 'callable':
+            sel.append('user')
+        elif v in ('int', 'None', 'list'):
+            return ('err', 'TypeError')
+        elif v in names:
+            sel.append(names[v])
+        else:
+            return ('err', 'ValueError')
+    if case['kw'] in ('-', 'None'):
+        return ('ok', sel[0], sel[1], 1)
+    if case['kw'] in ('empty', 'dict'):
+        return ('ok', sel[0], sel[1], 0)
+    return ('err', 'TypeError')
+
+
+def _ctor_describe(case):
+    return (f'{case["via"]}(coord, energyfxn=<{case["energy"]}>, style={case["style"]!r}, gradientfxn=<{case["gfx"]}>, '
+            f'gradientkwargs=<{case["kw"]}>, integratorfxn=<{case["ifx"]}>) ("-" = left out)')
+
+
+def _ctor_compare(got, want):
+    if want[0] == 'err':
+        return got[0] == 'err' and got[1] == want[1]
+    return tuple(got) == tuple(want)
+
+
 def correspond(ctx):
     np = _np()
     from atomman.mep.integrator import euler, rungekutta
@@ -2312,6 +3127,22 @@ def correspond(ctx):
             lines.extend(rowlines)
             checks.append(('integ-array', rowlines, (case, name, got), dict(case, integrator=name)))
             checks.extend([None] * (len(rowlines) - 1))
+    # construction: create_path / ISMPath / BasePath with every combination of good and bad arguments
+    for it in range(ctx.n(250, 3000)):
+        case = _gen_ctor(rng)
+        got = _ctor_run(case)
+        out = ctx.driver.ask(_ctor_line(case))
+        if out.startswith('ok'):
+            t = out.split()
+            want = ('ok', t[1], t[2], int(t[3]))
+        elif out in ('err:value', 'err:type'):
+            want = ('err', {'err:value': 'ValueError', 'err:type': 'TypeError'}[out])
+        else:
+            want = ('model', out)
+        ctx.stats.case('construct', repr(sorted(case.items())), nontrivial=True, sample=dict(case, result=list(got)))
+        if not _ctor_compare(got, want):
+            ctx.disagree('path:construct', f'{_ctor_describe(case)}: the implementation gives {got}, the model (createPath) {want}',
+                         {'op': 'ctor', 'case': case})
     # choice of the climbing images by relax
     for it in range(ctx.n(150, 1500)):
         case = _Selection.gen(rng)
@@ -2572,6 +3403,15 @@ def search(ctx, broken):
     ctx.extra['t_search_counts_s'] = round(time.time() - t_, 2)
     _search_units(ctx, rng, broken)
     _search_refusals(ctx, rng)
+    # every combination of good and bad constructor arguments: which exception comes first, what is selected
+    for it in range(ctx.n(150, 2000) * (2 if broken else 1)):
+        case = _gen_ctor(rng)
+        got = _ctor_run(case)
+        want = _ctor_oracle(case)
+        ctx.stats.case('oracle:construct', repr(sorted(case.items())))
+        if not _ctor_compare(got, want):
+            ctx.violate('path:construct:' + ('refusal' if want[0] == 'err' or got[0] == 'err' else 'selection'),
+                        f'{_ctor_describe(case)}: documented {want}, the implementation gives {got}', {'op': 'ctor', 'case': case})
     _search_paths(ctx, rng, broken)
     _search_relax(ctx, rng)
 
@@ -3294,6 +4134,11 @@ def replay(ctx, payload):
                 ctx.violate(f'{op}:homogeneity', 'replayed case: the step from c·y is still not c times the step from y', r)
         if not np.array_equal(yn, np.array(r['y'])):
             ctx.violate(f'{op}:mutates-input', f'replayed case still overwrites its input: {yn.tolist()}', r)
+    elif op == 'ctor':
+        got, want = _ctor_run(r['case']), _ctor_oracle(r['case'])
+        print('replay ctor', _ctor_describe(r['case']), 'impl', got, 'documented', want)
+        if not _ctor_compare(got, want):
+            ctx.violate('path:construct:refusal', f'replayed case still differs: {got} instead of {want}', r)
     elif op == 'path-seq':
         print('replay path operation sequence:', ' > '.join(_brief(o) for o in r['ops']))
         _run_sequence(ctx, r['ops'], 'oracle', 'replay')
